@@ -32,6 +32,8 @@ static std::string decorate(Rng& r, const std::string& name, std::string& how) {
   for (char c : name) s += (flip && c >= 'a' && c <= 'z' && r.below(3) == 0) ? char(c - 'a' + 'A') : c;
   // inserted runs of separators
   int runs = r.below(5);   // 0..4 runs
+  // one string in sixty carries a very long run (8200..70000 separators): "however often they occur"
+  if (r.below(60) == 0) { std::string big((size_t)(8200 + r.below(61800)), r.coin() ? ' ' : '-'); s.insert(r.coin() ? s.size() : (size_t)r.below((int)s.size() + 1), big); how += "[very-long-run]"; }
   static const char* RUNS[] = {"-", " ", "--", "  ", "- ", " -", "- -", " - ", "---", "   ", "-- -", "  - "};
   for (int k = 0; k < runs; k++) {
     std::string run = RUNS[r.below(12)];
@@ -50,7 +52,15 @@ static std::string decorate(Rng& r, const std::string& name, std::string& how) {
 static std::string negative(Rng& r, const std::vector<std::string>& names, std::string& how) {
   const std::string& n = names[(size_t)r.below((int)names.size())];
   std::string s = n;
-  switch (r.below(12)) {
+  switch (r.below(13)) {
+    case 12: {
+      // a catalogue name (possibly decorated) followed or interrupted by a NUL byte and more characters: as a std::string it is NOT a name
+      how = "embedded-nul";
+      size_t p = (size_t)r.below((int)s.size() + 1);
+      s.insert(p, 1, '\0');
+      if (r.coin()) s += "x";
+      break;
+    }
     case 9: {
       // two neighbouring characters changed by (+k, -M k): length and the polynomial string hash with multiplier M (31: Java, 33: djb2, 37, 131) are
       // preserved - a comparison by hash alone would accept it
@@ -117,7 +127,7 @@ static void run(Rng& r, long n, const std::vector<std::string>& names) {
     unsigned szb = masa_verif_registry_size<S>();
     set_ctx("init:" + P, "masa_init<" + P + ">(\"" + h + "\", \"" + s + "\")");
     // a third of the double-precision cases go through the C entry points (same registry): the handle is verbatim there as well
-    const bool viaC = sizeof(S) == 8 && r.below(3) == 0;
+    const bool viaC = sizeof(S) == 8 && r.below(3) == 0 && s.find('\0') == std::string::npos;   // a C string cannot carry a NUL
     if (viaC) { set_ctx("init:C", "C masa_init(\"" + h + "\", \"" + s + "\")"); LOG.count("cases_through_the_C_entry_points", 1); }
     Outcome o = guarded([&] { if (viaC) ::masa_init(h.c_str(), s.c_str()); else masa_init<S>(h, s); }, !expect_ok);
     bool adjacent = s.find("--") != std::string::npos || s.find("  ") != std::string::npos || s.find("- ") != std::string::npos || s.find(" -") != std::string::npos;
